@@ -222,7 +222,7 @@ def _path_lines(g: CFG, path: List[int]) -> str:
     return ">".join(out[:24])
 
 
-@rule("C06.R4", ["C06", "C11", "C13"], min_instances=4, design="3.6")
+@rule("C06.R4", ["C06", "C11", "C13", "C01", "C07"], min_instances=4, design="3.6")
 def maintenance_on_every_exit(ctx):
     """After a primary-storage mutation, every exit (normal or exceptional) passes index maintenance or invalidation, unless the index is known invalid."""
     n_mut = 0
@@ -251,7 +251,7 @@ def maintenance_on_every_exit(ctx):
             wit = explore_after_mutation(ctx, f, g, ne, nd.id, False, tracked)
             for kind in ("normal", "raise"):
                 p = wit.get(kind)
-                props = ["C06"] + (["C11", "C13"] if kind == "raise" else [])
+                props = ["C06", "C01", "C07"] + (["C11", "C13"] if kind == "raise" else [])
                 yield Ob("C06.R4", props, f"{f.qual} | after {what}{occ(f, nd.ast)} | {kind} exit", p is None,
                          "every such exit passes index maintenance/invalidation (or the index is invalid)"
                          if p is None else
@@ -262,7 +262,7 @@ def maintenance_on_every_exit(ctx):
             if compound:
                 wit = explore_after_mutation(ctx, f, g, ne, nd.id, True, tracked)
                 p = wit.get("raise") or wit.get("normal")
-                yield Ob("C06.R4", ["C13", "C06"], f"{f.qual} | {what}{occ(f, nd.ast)} itself fails midway | raise exit",
+                yield Ob("C06.R4", ["C13", "C06", "C01", "C07"], f"{f.qual} | {what}{occ(f, nd.ast)} itself fails midway | raise exit",
                          p is None,
                          "a failing storage call is followed by index invalidation" if p is None else
                          f"the storage call can fail after its first effect (row buffered / file partly replaced) "
